@@ -661,7 +661,8 @@ func runC18(c *Ctx) {
 	})
 
 	// ---------------------------------------------------------------- R7
-	c.rule("R7", "the bootstrap resolver created for an upstream carries that upstream's own host and port: New returns its own allocation, host/port fields are set only there, from the parameters, and the resolved address is joined with that port", 4)
+	c.rule("R7", "the bootstrap resolver created for an upstream carries that upstream's own host and port: New returns its own allocation, host/port fields are set only there, from the parameters, and the resolved address is joined with that port; the DoH upstream sends through the given RoundTripper only (no redirect following)", 5)
+	checkDohNoHTTPClient(c)
 	const relBootstrap = "pkg/upstream/bootstrap"
 	if nf := c.fn(relBootstrap, "", "New"); nf != nil {
 		c.see(nf)
